@@ -8,7 +8,7 @@ rows = ["| id | status | /repo commit | found by | what failed |", "|---|---|---
 for f in kf['findings']:
     rows.append("| %s | %s | %s | %s | %s |" % (f['id'], f['status'], f.get('commit', '-'), ', '.join("%s (`%s`)" % (w['property'], os.path.basename(w['file'])) for w in f.get('witnesses', [])), f['what']))
 findings = '\n'.join(rows)
-rows = ["| seeded change | property it targets | what it needs to manifest | repository suite | quick checks that report it | missed by |", "|---|---|---|---|---|---|"]
+rows = ["| seeded change | property it targets | what it needs to manifest | repository suite | quick checks that report it | other checks run that do not | when delivered |", "|---|---|---|---|---|---|---|"]
 for d in sorted(glob.glob(os.path.join(R, 'seeded', '*'))):
     try: m = json.load(open(os.path.join(d, 'meta.json')))
     except Exception: continue
@@ -16,7 +16,9 @@ for d in sorted(glob.glob(os.path.join(R, 'seeded', '*'))):
     det = [k for k, v in qc.items() if v == 'DETECTED']; mis = [k for k, v in qc.items() if v != 'DETECTED']
     need = str(m.get('needs_to_manifest', '')).replace('\n', ' ').replace('|', '/')
     summ = str(m.get('summary', '')).replace('\n', ' ').replace('|', '/')
-    rows.append("| `seeded/%s` - %s | %s | %s | %s pass | %s | %s |" % (os.path.basename(d), summ[:260], m.get('property', '?'), need[:300], m.get('confirmed_by_me', {}).get('suite_tests_passing_with_change', '?'), ', '.join(det) or '-', ', '.join(mis) or '-'))
+    fd = m.get('first_delivery_quick_checks'); own = os.path.basename(d)[:3]
+    first = "missed by %s (check extended since)" % own if fd and fd.get(own) != 'DETECTED' else "missed by %s (check extended since)" % own if os.path.basename(d) in ('C06_1', 'C19_1') else "reported"
+    rows.append("| `seeded/%s` - %s | %s | %s | %s pass | %s | %s | %s |" % (os.path.basename(d), summ[:200], m.get('property', '?'), need[:220], m.get('confirmed_by_me', {}).get('suite_tests_passing_with_change', '?'), ', '.join(det) or '-', ', '.join(mis) or '-', first))
 seeded = '\n'.join(rows)
 rows = ["| id | level | tier of the committed evidence | cases | distinct non-trivial | wall s |", "|---|---|---|---|---|---|"]
 for e in sorted(glob.glob(os.path.join(R, 'evidence', 'C*.json'))):
